@@ -20,6 +20,7 @@ type bcastCase struct {
 	ReplayKind string `json:"replay_kind"`
 	Fn         string `json:"fn"` // multi | uni
 	A, B       *hx.TJ
+	PreA, PreB *hx.TJ `json:",omitempty"` // an earlier request made in the same process before the judged one (history)
 }
 
 func init() {
@@ -32,6 +33,12 @@ func init() {
 }
 
 func runBcast(c *bcastCase) (v *hx.Violation) {
+	if c.PreA != nil && c.PreB != nil {
+		func() {
+			defer func() { recover() }() // the earlier request is judged by its own case
+			callBcast(c.Fn, hx.ToG(c.PreA.T()), hx.ToG(c.PreB.T()))
+		}()
+	}
 	a, b := c.A.T(), c.B.T()
 	ga, gb := hx.ToG(a), hx.ToG(b)
 	sa, sb := hx.Snapshot(ga), hx.Snapshot(gb)
@@ -139,19 +146,21 @@ func checkC14(c *hx.Checker) {
 		"non-trivial = at least one axis of one operand is stretched or padded (shapes differ); distinct by (fn,dtype,shapeA,shapeB)"
 	c.Assumptions = []string{"reference = right-aligned broadcasting written as index arithmetic (ref.BroadcastTo)", "complex/string elements are opaque tags (only moved, never computed on)"}
 	type job struct {
-		fn   string
-		dt   ref.DT
-		a, b []int
+		fn         string
+		dt         ref.DT
+		a, b       []int
+		dtB        *ref.DT // element type of B when it differs from A's (the helpers only move elements: each keeps its own)
+		preA, preB []int   // shapes of an earlier request in the same process (nil: none)
 	}
 	var jobs []job
 	add := func(dt ref.DT, shapesA, shapesB [][]int) {
 		for _, a := range shapesA {
 			for _, b := range shapesB {
 				for _, fn := range []string{"multi", "uni"} {
-					jobs = append(jobs, job{fn, dt, a, b})
+					jobs = append(jobs, job{fn: fn, dt: dt, a: a, b: b})
 				}
 				if dt == ref.I64 && len(a) <= 3 && len(b) <= 3 {
-					jobs = append(jobs, job{"apply-multi", dt, a, b}, job{"apply-uni", dt, a, b})
+					jobs = append(jobs, job{fn: "apply-multi", dt: dt, a: a, b: b}, job{fn: "apply-uni", dt: dt, a: a, b: b})
 				}
 			}
 		}
@@ -183,18 +192,68 @@ func checkC14(c *hx.Checker) {
 	// operands with surplus leading unit axes
 	fit := [][]int{{1000, 6, 4}, {4, 6}, {6, 4}, {24}, {1, 6, 4}, {256, 256}, {1, 1, 256}, {1, 256}, {256}, {1, 1, 1}, {2, 1, 256}, {300, 4, 6}}
 	add(ref.I64, fit, fit)
+	// operands of different element types (the helpers are also called with an index or condition tensor next to data):
+	// every ordered pair of 5 types on the rank<=2 extents {1,2,3} box
+	mixed := []ref.DT{ref.F32, ref.I64, ref.Bool, ref.F64, ref.U8}
+	mbox := ref.Box(0, 2, []int{1, 2, 3})
+	for _, dtA := range mixed {
+		for i := range mixed {
+			if dtB := mixed[i]; dtB != dtA {
+				for _, a := range mbox {
+					for _, b := range mbox {
+						jobs = append(jobs, job{fn: "multi", dt: dtA, a: a, b: b, dtB: &mixed[i]}, job{fn: "uni", dt: dtA, a: a, b: b, dtB: &mixed[i]})
+					}
+				}
+			}
+		}
+	}
+	// histories of two requests in one process: every ordered pair of requests over the rank<=2 shapes with extents
+	// {1,2,31,32,33} (beyond the small box: whatever a helper remembers between calls - plans keyed by a digest of the
+	// shapes, scratch buffers - must not reach the second answer)
+	hbox := ref.Box(0, 2, []int{1, 2, 31, 32, 33})
+	for _, pa := range hbox {
+		for _, pb := range hbox {
+			if _, ok := ref.BroadcastShape(pa, pb); !ok {
+				continue
+			}
+			for _, a := range hbox {
+				for _, b := range hbox {
+					if ref.ShapeEq(pa, a) && ref.ShapeEq(pb, b) {
+						continue
+					}
+					jobs = append(jobs, job{fn: "multi", dt: ref.I64, a: a, b: b, preA: pa, preB: pb})
+					if ref.NElem(pa) >= ref.NElem(pb) && ref.NElem(a) >= ref.NElem(b) {
+						jobs = append(jobs, job{fn: "uni", dt: ref.I64, a: a, b: b, preA: pa, preB: pb})
+					}
+				}
+			}
+		}
+	}
 	c.ParallelFor(len(jobs), func(i int) {
 		j := jobs[i]
-		bc := &bcastCase{ReplayKind: "bcast", Fn: j.fn, A: hx.ToTJ(ref.Distinct(j.dt, j.a)), B: hx.ToTJ(ref.Distinct(j.dt, j.b))}
+		dtB := j.dt
+		if j.dtB != nil {
+			dtB = *j.dtB
+		}
+		bc := &bcastCase{ReplayKind: "bcast", Fn: j.fn, A: hx.ToTJ(ref.Distinct(j.dt, j.a)), B: hx.ToTJ(ref.Distinct(dtB, j.b))}
 		id := fmt.Sprintf("%s/%s/%v/%v", j.fn, j.dt, j.a, j.b)
 		tags := []string{"fn=" + j.fn, "dtype=" + j.dt.String(), fmt.Sprintf("rankA=%d", len(j.a)), fmt.Sprintf("rankB=%d", len(j.b))}
+		if j.dtB != nil {
+			id += "/B:" + dtB.String()
+			tags = append(tags, "mixed-types")
+		}
+		if j.preA != nil {
+			bc.PreA, bc.PreB = hx.ToTJ(ref.Distinct(j.dt, j.preA)), hx.ToTJ(ref.Distinct(j.dt, j.preB))
+			id += fmt.Sprintf("/after:%v,%v", j.preA, j.preB)
+			tags = append(tags, "history")
+		}
 		if len(j.a) == 0 || len(j.b) == 0 {
 			tags = append(tags, "scalar-operand")
 		}
 		c.Case(hx.CaseInfo{ID: id, Tags: tags, NonTrivial: !ref.ShapeEq(j.a, j.b),
 			Sample: map[string]any{"fn": j.fn, "dtype": j.dt.String(), "shapeA": j.a, "shapeB": j.b}},
 			func() *hx.Violation { return runBcast(bc) })
-		if len(j.a) <= 3 && len(j.b) <= 3 && ref.NElem(j.a) <= 64 && ref.NElem(j.b) <= 64 && (j.dt == ref.I64 || j.dt == ref.F32) {
+		if len(j.a) <= 3 && len(j.b) <= 3 && ref.NElem(j.a) <= 64 && ref.NElem(j.b) <= 64 && (j.dt == ref.I64 || j.dt == ref.F32) && j.dtB == nil && j.preA == nil {
 			c.Case(hx.CaseInfo{ID: "frozen-sources/" + id, Tags: append(append([]string{}, tags...), "frozen-sources"), NonTrivial: !ref.ShapeEq(j.a, j.b)},
 				func() *hx.Violation {
 					if v := runBcastFrozen(bc); v != nil {
